@@ -233,6 +233,11 @@ def handle : List String → Option String
       | some (x, []) => ",".intercalate ((decodeText x).map toString)
       | _ => "none"
     some s!"w={hexB w} d={d}"
+  | ["NUM", h] => do
+    let p ← unhex h
+    match P.decParse p with
+    | some (n, ip, fr) => some (if P.decShape n ip fr == p && ip.all Rd.isDigit && fr.all Rd.isDigit then "1" else "0")
+    | none => some "0"
   | ["PARSE", h] => do
     let b ← unhexBA h
     let bs := b.toList
